@@ -569,6 +569,7 @@ func gepInstType(elemType, src types.Type, indices []value.Value) types.Type {
 		// Check if index is of vector type.
 		if indexType, ok := index.Type().(*types.VectorType); ok {
 			idx.VectorLen = indexType.Len
+			idx.Scalable = indexType.Scalable
 		}
 		idxs = append(idxs, idx)
 	}
